@@ -353,6 +353,7 @@ class _AsyncioProxy:
         ctl = self._ctl_ref[0]
         if ctl is not None:
             ctl.h["polls"] += 1
+            ctl.stall_polls += 1
         await asyncio.sleep(0)
 
 
@@ -445,6 +446,7 @@ class Controller:
         self.nfail = 0
         self.steps = 0
         self.ncalls = 0
+        self.stall_polls = 0  # polls of the current `nothing runnable, nothing executing` episode of the real loop
         self.record_real_calls = False
 
     def ev(self, *e):
@@ -453,6 +455,8 @@ class Controller:
     # -- what the loop does
     def record_call(self, tasks):
         self.observe()
+        if tasks:
+            self.stall_polls = 0
         self.ev("call", [label(j) for j in tasks])
 
     def observe(self):
@@ -832,16 +836,27 @@ def _drive_real(opts, ctl, sub, wf_job):
         while x is not None and len(chain) < 6:
             chain.append(x)
             x = x.__context__ or x.__cause__
+        for c in chain:
+            if isinstance(c, CheckerError):
+                raise c
         inner = ctl.h.get("raised_in")
-        stalled = any((isinstance(c, RuntimeError) and "Something has gone wrong" in str(c)) or isinstance(c, LoopDeadlock) for c in chain)
+        stalled = ctl.stall_polls > 10 or any((isinstance(c, RuntimeError) and "Something has gone wrong" in str(c)) or isinstance(c, LoopDeadlock) for c in chain)
         aggregated = isinstance(e, RuntimeError) and str(e).startswith("Workflow job ")
+        masked = chain[1] if aggregated and len(chain) > 1 else None  # an exception replaced by the one raised in `finally`
         if aggregated:
             ctl.h["error_message"] = str(e)  # the aggregated error the property talks about
+        r = None
         if stalled:
             ctl.h["stalled"] = True
-        elif inner is not None or not aggregated:
-            ctl.h["raised"] = inner or {"where": "Submitter.expand_workflow_async", "type": type(e).__name__, "msg": str(e)[:2000], "tb": _tb_functions(e)}
-            ctl.ev("raise", ctl.h["raised"]["where"], ctl.h["raised"]["type"], ctl.h["raised"]["msg"][:200])
+        elif inner is not None:
+            r = inner
+        elif masked is not None:
+            r = {"where": "Submitter.expand_workflow_async", "type": type(masked).__name__, "msg": str(masked)[:2000], "tb": _tb_functions(masked)}
+        elif not aggregated:
+            r = {"where": "Submitter.expand_workflow_async", "type": type(e).__name__, "msg": str(e)[:2000], "tb": _tb_functions(e)}
+        if r is not None:
+            ctl.h["raised"] = r
+            ctl.ev("raise", r["where"], r["type"], r["msg"][:200])
     finally:
         ctl.cancel()
         # let cancelled worker tasks unwind
@@ -1360,8 +1375,17 @@ def _e2e_child(cfg):
     from pydra.engine.submitter import Submitter
     from pydra.engine.workflow import Workflow
 
-    spec = S(cfg["name"], *cfg["nodes"])
+    import signal
+
     root = Path(tempfile.mkdtemp(prefix="vf_sched_e2e_"))
+
+    def self_destruct(*a):  # the parent died or the run hangs: remove the directory, kill the whole group
+        shutil.rmtree(root, ignore_errors=True)
+        os.killpg(os.getpgid(0), signal.SIGKILL)
+
+    signal.signal(signal.SIGALRM, self_destruct)
+    signal.alarm(int(cfg.get("self_destruct", 170)))
+    spec = S(cfg["name"], *cfg["nodes"])
     log = root / "body.log"
     ff = root / "fail.txt"
     os.environ["VF_SCHED_BODYLOG"] = str(log)
@@ -1408,27 +1432,41 @@ def _e2e_child(cfg):
     print("E2E-RESULT " + json.dumps(out), flush=True)
 
 
-def e2e(cfg, timeout=120):
+def e2e(cfg, timeout=150):
+    """one real submission in a child process group of its own (killed as a whole on timeout)"""
     import json
+    import signal
     import subprocess
     import sys
 
-    env = dict(os.environ)
+    cfg = dict(cfg, self_destruct=timeout + 20)
+    p = subprocess.Popen(
+        [sys.executable, "-c", "import sys, json; from props import _schedharness as H; H._e2e_child(json.loads(sys.argv[1]))", json.dumps(cfg)],
+        stdout=subprocess.PIPE,
+        stderr=subprocess.PIPE,
+        text=True,
+        env=dict(os.environ),
+        cwd=str(Path(__file__).resolve().parent.parent),
+        start_new_session=True,
+    )
     try:
-        p = subprocess.run(
-            [sys.executable, "-c", "import sys, json; from props import _schedharness as H; H._e2e_child(json.loads(sys.argv[1]))", json.dumps(cfg)],
-            capture_output=True,
-            text=True,
-            timeout=timeout,
-            env=env,
-            cwd=str(Path(__file__).resolve().parent.parent),
-        )
+        out, err = p.communicate(timeout=timeout)
     except subprocess.TimeoutExpired:
+        try:
+            os.killpg(p.pid, signal.SIGKILL)
+        except OSError:
+            pass
+        p.communicate()
         return {"timeout": True}
-    for line in p.stdout.splitlines():
+    finally:
+        try:
+            os.killpg(p.pid, signal.SIGKILL)  # pool processes a crashed run may have left behind
+        except OSError:
+            pass
+    for line in out.splitlines():
         if line.startswith("E2E-RESULT "):
             return json.loads(line[len("E2E-RESULT ") :])
-    return {"crash": (p.stderr or "")[-400:]}
+    return {"crash": (err or "")[-400:]}
 
 
 def e2e_c14():
@@ -1436,10 +1474,10 @@ def e2e_c14():
     chain b -> c -> d is half way; the property demands that d still runs"""
     import concurrent.futures as cf
 
-    nodes = ["a@5.0", "b", "c<b@10.0", "d<c"]
+    nodes = ["a@8.0", "b", "c<b@14.0", "d<c"]
     lines = []
     runs = [
-        ("cf worker n_procs=2, a fails after 5 s while c (independent, 10 s) is running", {"worker": "cf", "n_procs": 2}, ["100<>"]),
+        ("cf worker n_procs=2, a fails after 8 s while c (independent, 14 s) is running", {"worker": "cf", "n_procs": 2}, ["100<>"]),
         ("cf worker n_procs=2, nothing fails", {"worker": "cf", "n_procs": 2}, []),
         ("debug worker, a fails (sequential loop: the first failure ends the run by design)", {"worker": "debug"}, ["100<>"]),
     ]
@@ -1457,10 +1495,10 @@ def e2e_c14():
 def e2e_c16():
     import concurrent.futures as cf
 
-    nodes = ["a@4.0", "b@12.0", "c@6.0", "d@6.0"]
+    nodes = ["a@6.0", "b@16.0", "c@8.0", "d@8.0"]
     lines = []
     runs = [
-        ("cf worker n_procs=4 max_concurrent=2, four independent jobs a(4s) b(12s) c(6s) d(6s)", {"worker": "cf", "n_procs": 4, "max_concurrent": 2}),
+        ("cf worker n_procs=4 max_concurrent=2, four independent jobs a(6s) b(16s) c(8s) d(8s)", {"worker": "cf", "n_procs": 4, "max_concurrent": 2}),
         ("debug worker max_concurrent=2, same workflow", {"worker": "debug", "max_concurrent": 2}),
     ]
     with cf.ThreadPoolExecutor(len(runs)) as ex:
